@@ -265,6 +265,25 @@ Definition effd (s : st) : ftab := match wrest s with Some r0 => early r0 (dfree
 Definition RInv (x : st * arec) : Prop :=
   RObs (fst x) (snd x) /\ (inw (fst x) = true -> wdfreed (fst x) = effd (fst x)).
 
+(* the invariant of the product machine *)
+Definition Inv2 (x : st * arec) : Prop := Inv (fst x) /\ RInv x.
+
+(* ---------------------------------------------------------------- the no-leak schedule *)
+
+(* a state with no write transaction, no reader, no savepoint *)
+Definition quiet (s : st) : Prop := Inv s /\ inw s = false /\ pins s = [].
+
+(* one durable commit without data change: begin_write; commit(Immediate, quick_repair off, post-commit free on);
+   Sd / So = system-tree pages of the committed root / after the epilogue (oracle) *)
+Definition qcommit (Sd So : list page) (s : st) : st :=
+  commit_dur (vdata (lat s)) Sd So false true (begin_write s).
+Definition qok (Sd So : list page) (s : st) : Prop :=
+  ok_commit_dur (vdata (lat s)) Sd So false true (begin_write s) = true.
+
+Definition no_leak_schedule (D Sd1 So1 Sd2 So2 Sd3 So3 : list page) : list op :=
+  [OBeginWrite; OCommitDur D Sd1 So1 false true; OBeginWrite; OCommitDur D Sd2 So2 false true;
+   OBeginWrite; OCommitDur D Sd3 So3 false true].
+
 (* ---------------------------------------------------------------- the checker *)
 
 Definition sp_pinb (e : N * N) (x : pin) : bool := N.eqb (ph x) (fst e) && N.eqb (ptxn x) (snd e).
